@@ -42,6 +42,7 @@ Fixpoint conc_match (c : gcfg) (deep : nat) (univ : list Z) (seen : list Z) (g :
       | None => false
       | Some (g', a') =>
           match l with GCall j => mem (key_of (j_op j)) univ | _ => true end
+          && (0 <? g_n c)
           && match l, a' with GCall j, AQueued => negb (mem (j_id j) seen) | _, _ => true end
           && answer_eqb a' a
           && list_eqb ov_eqb (map (mcache_at c g') univ) ca && list_eqb oz_eqb (map (mstore_at c g') univ) st
@@ -94,7 +95,8 @@ Definition item_holds (univ : list Z) (m : mon) (it : item) : bool * mon :=
       (* the fast path answers with what the cache holds; coherent3 relates that to the store *)
       (match j_op j with OGet k => ov_eqb (at_key univ ca k) (Some v) | _ => false end
        && coherent3 univ (inflight_key (m_queued m') (m_done m')) ca st (m_committed m'), m')
-  | GCall _, ARefused _ | GCall _, APanic | GStop, AStopped | GAbandon _, ARefused _ =>
+  | GCall _, APanic => (false, m)       (* every key has a worker: no call panics (repair 21) *)
+  | GCall _, ARefused _ | GStop, AStopped | GAbandon _, ARefused _ =>
       let m' := mkMon (m_queued m) (m_done m) (m_started m) (m_store_ids m) (m_committed m) st in
       (coherent3 univ (inflight_key (m_queued m') (m_done m')) ca st (m_committed m'), m')
   | GStep _, AStep id e fin =>
@@ -613,7 +615,7 @@ Proof.
       assert (Hy' : In y (k_queue (g w))) by (destruct (Z.eq_dec w w0) as [->|Hne]; [rewrite updm_same, Hq' in Hy | rewrite updm_other in Hy by exact Hne]; exact Hy).
       destruct (Hids_in _ Hi) as [Hi'|[E _]]; [apply (R9 w y Hy'); exact Hi' | apply (Hq_other w y Hy'); exact E].
   - (* ---- the job completes ---- *)
-    rewrite Hfind. fold k. fold ids. cbn [safe] in Hs1. destruct Hs1 as (_ & Hcoh & Hdup & Hnil).
+    rewrite Hfind. fold k. fold ids. cbn [safe] in Hs1. destruct Hs1 as (_ & Hcoh & Hdup & Hnil & _).
     assert (Hcmeq : set_at univ (m_committed m) k (at_key univ (map (mstore_at c (updm g w0 s')) univ) k)
                     = map (mcommitted_at c (updm g w0 s')) univ).
     { rewrite R1, set_at_map, at_key_map by exact Hku. apply map_ext. intros y. unfold mcommitted_at.
@@ -683,7 +685,7 @@ Proof.
       destruct (Hids_in _ Hi) as [Hi'|[E _]]; [apply (R9 w y Hy'); exact Hi' | apply (Hq_other w y Hy'); exact E].
 Qed.
 
-Theorem rel_step g m seen tr l a g' :
+Theorem rel_step g m seen tr l a g' : 0 < g_n c ->
   minv g -> rinv c g -> sinv g -> uinv g seen -> rel g m seen tr ->
   gstep c deep g l = Some (g', a) ->
   (match l with GCall j => In (jkey j) univ | _ => True end) ->
@@ -691,15 +693,14 @@ Theorem rel_step g m seen tr l a g' :
   exists m', item_holds univ m (l, a, map (mcache_at c g') univ, map (mstore_at c g') univ) = (true, m')
              /\ rel g' m' (seen_after l a seen) (tr ++ [(l, a)]).
 Proof.
-  intros Hm Hri Hsi Hu Hr Hg Hkey Hfresh.
+  intros Hn Hm Hri Hsi Hu Hr Hg Hkey Hfresh.
   pose proof (minv_gstep _ _ _ _ _ _ Hm Hg) as Hm'.
   destruct l as [j|w0| |cid|wa]; [| | |cbn [gstep] in Hg; discriminate|].
   - (* ---------------- a call ---------------- *)
     cbn [gstep] in Hg. set (wj := loc_of c (key_of (j_op j))) in *.
     destruct (wj <? 0) eqn:En.
-    { inversion Hg; subst g' a; clear Hg. cbn [seen_after].
-      destruct (step_neutral g m seen tr (GCall j) APanic g Hm Hm Hr (same_jobs_refl g) (fun _ => eq_refl) (fun _ => eq_refl)) as [Hc Hr']. cbn [m_queued m_done m_committed] in Hc.
-      eexists. split; [|exact Hr']. cbn [item_holds m_queued m_done m_committed]. rewrite Hc. reflexivity. }
+    { (* every key has a worker *) exfalso. apply Z.ltb_lt in En. unfold wj, loc_of in En.
+      pose proof (lochash_in_range (hash_of c (key_of (j_op j))) (g_n c) Hn). lia. }
     destruct (wcall deep (g wj) j) as [s' a'] eqn:Ew. inversion Hg; subst g' a'; clear Hg.
     destruct (wcall_frame _ _ _ _ _ Ew) as (Fcm & Fst & Fcv & Ffast).
     destruct (wcall_cases _ _ _ _ _ Ew) as [(Hc' & Hq' & Hna)|Hqueued].
@@ -714,6 +715,13 @@ Proof.
         destruct (Ffast v eq_refl) as (k & Ho & Hv). rewrite Ho, Hc, andb_true_r. unfold jkey in Hkey. rewrite Ho in Hkey. cbn [key_of] in Hkey.
         rewrite at_key_map by exact Hkey. unfold mcache_at. fold (cview (k_st (updm g wj s' (loc_of c k))) k).
         assert (Hwk : loc_of c k = wj) by (unfold wj; rewrite Ho; reflexivity). rewrite Hwk, updm_same, Hv. unfold ov_eqb. cbn [opt_eqb]. rewrite oz_eqb_refl. reflexivity.
+      - (* a call that found its worker does not panic *)
+        exfalso. unfold wcall in Ew.
+        assert (Henq : forall s1, enqueue deep (g wj) j = (s1, APanic) -> False).
+        { intros s1. unfold enqueue. destruct (k_closed (g wj)); [intros H; inversion H|].
+          destruct (full deep (k_queue (g wj))); [intros H; inversion H|]. destruct (k_cur (g wj)); intros H; inversion H. }
+        destruct (j_op j); try (eapply Henq; eauto; fail).
+        destruct (c_get (wc (k_st (g wj))) k) as [c0 r0]. destruct r0; [inversion Ew | eapply Henq; eauto].
       - (* a step answer cannot come from a call *)
         exfalso. unfold wcall in Ew.
         assert (Henq : forall s1 i e f, enqueue deep (g wj) j = (s1, AStep i e f) -> False).
@@ -803,14 +811,14 @@ Proof.
   - exists g, m, seen. cbn [conc_fold map grun]. rewrite app_nil_r. split; [reflexivity|]. split; [exact Hr | reflexivity].
   - cbn [conc_match] in Hc. destruct (gstep c deep g l) as [[g1 a1]|] eqn:Es; [|discriminate].
     apply andb_prop in Hc as [Hc Hrest]. apply andb_prop in Hc as [Hc Hst]. apply andb_prop in Hc as [Hc Hca].
-    apply andb_prop in Hc as [Hc Ha]. apply andb_prop in Hc as [Hkey Hfresh].
+    apply andb_prop in Hc as [Hc Ha]. apply andb_prop in Hc as [Hkey Hfresh]. apply andb_prop in Hkey as [Hkey Hn]. apply Z.ltb_lt in Hn.
     apply answer_eqb_eq in Ha. subst a1.
     apply (list_eqb_eq _ ov_eqb_eq) in Hca. apply (list_eqb_eq _ oz_eqb_eq) in Hst. subst ca st.
     assert (Hkey' : match l with GCall j => In (jkey j) univ | _ => True end).
     { destruct l; try exact I. apply mem_true. exact Hkey. }
     assert (Hfresh' : match l, a with GCall j, AQueued => ~ In (j_id j) seen | _, _ => True end).
     { destruct l; try exact I. destruct a; try exact I. apply mem_false. apply negb_true_iff. exact Hfresh. }
-    destruct (rel_step c deep univ g m seen tr0 l a g1 Hm Hri Hsi Hu Hr Es Hkey' Hfresh') as (m1 & Hih & Hr1).
+    destruct (rel_step c deep univ g m seen tr0 l a g1 Hn Hm Hri Hsi Hu Hr Es Hkey' Hfresh') as (m1 & Hih & Hr1).
     pose proof (minv_gstep _ _ _ _ _ _ Hm Es) as Hm1.
     destruct (rinv_gstep _ _ _ _ _ _ Hm Hri Es) as [Hri1 _].
     pose proof (sinv_gstep _ _ _ _ _ _ Hsi Es) as Hsi1.
